@@ -14,6 +14,7 @@ import NostrRelay.Model.Live
 import NostrRelay.Model.Handler
 import NostrRelay.Model.Announce
 import NostrRelay.Model.Validate
+import NostrRelay.Model.MsgPack
 
 open Lean
 
@@ -70,6 +71,45 @@ def fromHex (s : String) : List Nat := fromHexAux s.toList
 def hexList (j : Json) (k : String) : List (List Nat) :=
   (getArr j k).toList.map fun x => fromHex (x.getStr?.toOption.getD "")
 def jHexList (l : List (List Nat)) : Json := Json.arr (l.map (fun b => Json.str (toHex b))).toArray
+
+
+/-! ### msgpack record codec -/
+namespace MPD
+open NostrRelay NostrRelay.MP
+
+partial def parseV (j : Json) : V :=
+  let t := getStr j "t"
+  let v := (j.getObjVal? "v").toOption.getD Json.null
+  if t == "nil" then .nil
+  else if t == "bool" then .bool (v.getBool?.toOption.getD false)
+  else if t == "int" then .int ((v.getStr?.toOption.getD "0").toInt?.getD 0)
+  else if t == "float" then .float (fromHex (v.getStr?.toOption.getD ""))
+  else if t == "str" then .str (fromHex (v.getStr?.toOption.getD ""))
+  else if t == "bin" then .bin (fromHex (v.getStr?.toOption.getD ""))
+  else if t == "arr" then .arr ((v.getArr?.toOption.getD #[]).toList.map parseV)
+  else .map ((v.getArr?.toOption.getD #[]).toList.map parseV)
+
+partial def dumpV : V → Json
+  | .nil => Json.mkObj [("t", "nil")]
+  | .bool b => Json.mkObj [("t", "bool"), ("v", Json.bool b)]
+  | .int i => Json.mkObj [("t", "int"), ("v", Json.str (toString i))]
+  | .float r => Json.mkObj [("t", "float"), ("v", Json.str (toHex r))]
+  | .str s => Json.mkObj [("t", "str"), ("v", Json.str (toHex s))]
+  | .bin b => Json.mkObj [("t", "bin"), ("v", Json.str (toHex b))]
+  | .arr xs => Json.mkObj [("t", "arr"), ("v", Json.arr (xs.map dumpV).toArray)]
+  | .map xs => Json.mkObj [("t", "map"), ("v", Json.arr (xs.map dumpV).toArray)]
+
+def parseRow (j : Json) : Row :=
+  { id := fromHex (getStr j "id"), created := (getStr j "created").toInt?.getD 0, kind := (getStr j "kind").toInt?.getD 0,
+    pubkey := fromHex (getStr j "pubkey"), content := fromHex (getStr j "content"),
+    tags := parseV ((j.getObjVal? "tags").toOption.getD Json.null), sig := fromHex (getStr j "sig") }
+
+def dumpRow (r : Row) : Json :=
+  Json.mkObj [("id", Json.str (toHex r.id)), ("created", Json.str (toString r.created)), ("kind", Json.str (toString r.kind)),
+    ("pubkey", Json.str (toHex r.pubkey)), ("content", Json.str (toHex r.content)), ("tags", dumpV r.tags),
+    ("sig", Json.str (toHex r.sig))]
+
+end MPD
 
 /-! ### KV -/
 namespace KVD
@@ -407,6 +447,19 @@ def step (st : St) (j : Json) : St × Json :=
   | "val.kinds" =>
     let raw : List Int := (getArr j "values").toList.map fun x => (x.getInt?.toOption.getD 0)
     (st, Json.arr ((NostrRelay.Validate.sortKinds raw).map fun k => Json.num (JsonNumber.fromInt k)).toArray)
+  | "mp.pack" =>
+    let v := MPD.parseV ((j.getObjVal? "v").toOption.getD Json.null)
+    (st, if NostrRelay.MP.packable v then Json.str (toHex (NostrRelay.MP.pack v)) else Json.str "raises")
+  | "mp.unpack" =>
+    (st, match NostrRelay.MP.unpackb (fromHex (getStr j "data")) with
+      | some v => MPD.dumpV v
+      | none => Json.null)
+  | "mp.record" =>
+    let r := MPD.parseRow ((j.getObjVal? "row").toOption.getD Json.null)
+    (st, match NostrRelay.MP.encodeEvent r with
+      | none => Json.mkObj [("data", Json.str "raises")]
+      | some d => Json.mkObj [("data", Json.str (toHex d)),
+          ("back", match NostrRelay.MP.decodeEvent d with | some r' => MPD.dumpRow r' | none => Json.null)])
   | "json.enc" => (st, JD.jcps (NostrRelay.Json.encodeBasestring (JD.field j "s")))
   | "json.parse" => (st, JD.frameJson (NostrRelay.Json.parseFrame (JD.field j "s")))
   | "adm.isSigned" => (st, Json.str (AD.verdictStr (NostrRelay.Admission.isSigned (AD.parseFacts (j.getObjVal? "facts" |>.toOption.getD Json.null)))))
